@@ -346,6 +346,8 @@ def judge_events(events, root: str, ro_prefixes):
     sb = root + "/sb"
     in_sb, outside, foreign = [], [], []
     for kind, p, rp in events:
+        if rp.endswith(".pyc") or "/__pycache__/" in rp:
+            continue          # byte-code caches of lazily imported modules
         if inside(rp, sb):
             in_sb.append([kind, p])
         elif inside(rp, root):
